@@ -247,6 +247,25 @@ def named_reductions(ctx, tk):
                                node=d, key="axes", engine="E6")
 
 
+def _same_name_as_wrapped(nm, w):
+    """the name handed to getattr(np, .) is the wrapped function's __name__: directly, or through a variable of the
+    enclosing decorator that was assigned `func.__name__`.  A constant name is wrong (one name for every reduction)"""
+    if nm is None:
+        return None
+    if nm.k == "attr" and nm.a[1] == "__name__" and nm.a[0].k == "free":
+        return True
+    if nm.k == "const":
+        return False
+    if nm.k == "free" and w.parent is not None:
+        for x in ast.walk(w.parent.node):
+            if isinstance(x, ast.Assign) and any(isinstance(t, ast.Name) and t.id == nm.a[0] for t in x.targets):
+                v = x.value
+                if isinstance(v, ast.Attribute) and v.attr == "__name__" and isinstance(v.value, ast.Name) and v.value.id in w.parent.params:
+                    return True
+                return None
+    return None
+
+
 def _choose(t, env):
     """the alternative of a conditional expression selected when the named parameters have the given constant
     values; None when the condition cannot be evaluated"""
@@ -330,7 +349,7 @@ def wrapper(ctx, tk):
                 if x.k == "call" and x.a[0].k == "call" and x.a[0].a[0].k == "global" and x.a[0].a[0].a[0] == "getattr":
                     g = x.a[0]
                     nm = g.a[1][1] if len(g.a[1]) > 1 else None
-                    ok = bool(nm is not None and nm.k == "attr" and nm.a[1] == "__name__" and nm.a[0].k == "free")
+                    ok = _same_name_as_wrapped(nm, w)
                     arg = x.a[1][0] if x.a[1] else None
                     if arg is not None and not (arg.k == "call" and arg.a[0].k == "attr" and arg.a[0].a[1] == "ravel"):
                         ok = None
